@@ -238,9 +238,7 @@ func verifC18Dial() {
 	// and every other established connection has been closed
 	vAdvance(13 * vUnit) // dial functions that do not watch their context finish in their own time
 	left := vQuiesce()
-	if vSymbolic() {
-		vAssert(left == 0, "no goroutine left behind once outstanding attempts returned")
-	}
+	vAssert(left == 0, "no goroutine left behind once outstanding attempts returned")
 	for _, a := range atts {
 		if a.conn != nil && a.conn != conn {
 			vAssert(a.conn.closed, "every other established connection is closed")
